@@ -435,13 +435,16 @@ def cmp_vectors(t):
     return list(dict.fromkeys(vs))
 
 
-def cmp_tasks():
+def cmp_tasks(thorough=True):
     """comparison followed by i32.eqz / if / br_if / select, and comparison consumed directly"""
     tasks = []
     for t in INTS + FLTS:
         d = new_module()
         calls = []
         vecs = cmp_vectors(t)
+        if not thorough:       # quick tier: every pair with a NaN, a few others
+            vecs = [v for v in vecs if is_nan(t, v[0]) or is_nan(t, v[1])] + vecs[:7] + vecs[-3:]
+            vecs = list(dict.fromkeys(vecs))
         rels = (IREL if t in INTS else FREL)
         for r in rels:
             op = f"{t}.{r}"
@@ -762,7 +765,7 @@ def host_tasks():
     size = add_func(d, [], ["i32"], [], [["memory.size"]])
     ld = add_func(d, ["i32"], ["i32"], [], [L(0), ["i32.load", 0]])
     st = add_func(d, ["i32", "i32"], [], [], [L(0), L(1), ["i32.store", 0]])
-    calls = [(size, (), "memory.size"), (st, (16, 77), "i32.store"), (ld, (16,), "i32.load"), (size, (), "memory.size")]
+    calls = [(size, (), "memory.size[second instance exists]"), (st, (16, 77), "i32.store"), (ld, (16,), "i32.load")]
     import copy
     t1 = task("two-instances", d, calls, name="two-instances", after=copy.deepcopy(d))
     d2 = new_module()
@@ -773,7 +776,7 @@ def host_tasks():
 
 
 def pattern_tasks(rng=None, thorough=False):
-    ts = cmp_tasks() + [const_task(), locals_task(), globals_task()] + memory_tasks() + memgrow_tasks() + control_tasks() + call_tasks()
+    ts = cmp_tasks(thorough) + [const_task(), locals_task(), globals_task()] + memory_tasks() + memgrow_tasks() + control_tasks() + call_tasks()
     ts += [start_task(), trapping_start_task()] + host_tasks()
     return ts
 
